@@ -8,6 +8,7 @@ import (
 	"sync"
 
 	"github.com/deepteams/webp/internal/bitio"
+	"github.com/deepteams/webp/internal/verifhook"
 )
 
 // losslessDecoderPool caches Decoder structs between decode calls so that the
@@ -19,6 +20,7 @@ var losslessDecoderPool sync.Pool
 // are kept for reuse.
 func acquireDecoder() *Decoder {
 	if v := losslessDecoderPool.Get(); v != nil {
+		verifhook.PoolHit("lossless.Decoder")
 		dec := v.(*Decoder)
 		dec.br = nil
 		dec.Width = 0
